@@ -9,7 +9,10 @@ EXTRA = {"C11-A": "C11,C15", "C02-B": "C02,C01", "C03-B": "C03,C02", "C06-B": "C
          "C04-I": "C04,C10", "C05-I": "C05,C19,C16", "C05-J": "C05,C15", "C06-I": "C06,C15", "C07-I": "C07,C09", "C02-J": "C02,C04", "C03-J": "C03,C04", "C19-J": "C19,C15", "C13-J": "C13,C01",
          "C15-K": "C15,C01", "C15-L": "C15,C08", "C19-L": "C19,C15", "C02-K": "C02,C01", "C02-L": "C02,C04", "C17-L": "C17,C18", "C14-L": "C14,C19",
          "C02-M": "C02,C01", "C02-N": "C02,C01", "C12-M": "C12,C08", "C03-N": "C03,C01", "C15-M": "C15,C05",
-         "C02-P": "C02,C04", "C12-O": "C12,C19", "C12-P": "C12,C07", "C19-O": "C19,C07", "C07-P": "C07,C09", "C17-O": "C17,C07", "C06-P": "C06,C12", "C05-P": "C05,C04", "C15-P": "C15,C12"}
+         "C02-P": "C02,C04", "C12-O": "C12,C19", "C12-P": "C12,C07", "C19-O": "C19,C07", "C07-P": "C07,C09", "C17-O": "C17,C07", "C06-P": "C06,C12", "C05-P": "C05,C04", "C15-P": "C15,C12",
+         "C16-Q": "C16,C04", "C04-Q": "C04,C16", "C16-R": "C16,C04", "C04-R": "C04,C16", "C13-R": "C13,C19", "C19-R": "C19,C02", "C05-Q": "C05,C03", "C05-R": "C05,C04",
+         "C03-Q": "C03,C04", "C03-R": "C03,C01", "C12-Q": "C12,C11", "C11-R": "C11,C12", "C18-R": "C18,C14", "C08-Q": "C08,C07", "C08-R": "C08,C07", "C07-Q": "C07,C08", "C07-R": "C07,C08",
+         "C17-R": "C17,C18", "C06-R": "C06,C10", "C02-Q": "C02,C01"}
 args = sys.argv[1:]
 lanes = 4
 if "--lanes" in args:
